@@ -36,7 +36,8 @@ for d in sorted(glob.glob(os.path.join(S, "*/"))):
         what = lines[0] if lines else ""
         m = re.search(r"(?im)^(?:#+\s*)?(?:what (?:is|it) needs?|needs?|trigger|manifests?)[^\n]*\n+((?:.+\n){1,4})", notes)
         needs = " ".join(x.strip("-* ").strip() for x in (m.group(1).splitlines() if m else [])[:3])[:400] or "see NOTES.md"
-        origin = "independent sub-agent, round %s (given only the property text and a scratch worktree)" % ("2" if "-r2" in mid else "1")
+        rnd = re.search(r"-r(\d)m", mid)
+        origin = "independent sub-agent, round %s (given only the property text and a scratch worktree)" % (rnd.group(1) if rnd else "1")
         c = conf.get(mid, {})
         confirmed = "re-confirmed in a scratch worktree: existing tests pass with the change=%s, demonstration fails with it=%s, passes without it=%s" % (
             c.get("existing_tests_pass_with_change"), c.get("demo_fails_with_change"), c.get("demo_passes_without_change"))
